@@ -504,7 +504,7 @@ def gen_cases(ctx):
             slow_left[0] -= 1
             return rng.choice(([3, rng.choice(ks)], [4, 1]))
         if permanent_ok and r < 0.97:
-            return [0, rng.choice((404, 404, 401, 403, 400, 416, 409))]
+            return [0, rng.choice((404, 404, 401, 403, 400, 416, 409, 501, 507))]
         return [0, 503]
 
     def rand_cfg():
